@@ -41,6 +41,9 @@ structure FaultV where
   /-- `None` or a dict -/
   detail : Option (List (Text × Detail))
   lang : Text
+  /-- declared members of a generated Fault subclass (`{namespace}name`, text form): the XML protocols write
+      them after the standard children (`_get_members_etree`), `Fault.to_dict` / `to_list` ignore them -/
+  members : List (Text × Text) := []
   deriving Repr, Inhabited
 
 /-- what `isinstance` says about the class of the raised fault (built-in or generated subclass;
@@ -148,6 +151,8 @@ structure Facts09 where
   /-- whose `fault_to_http_response_code` handle_error asks when the user code has replaced
       `ctx.out_protocol` for the request -/
   statusAsker : StatusAsker
+  /-- the transport ignores an exception that propagates out of the auxiliary methods' processing -/
+  auxGuarded : Bool
   deriving Repr
 
 /-! ## status (fault_to_http_response_code) -/
@@ -383,12 +388,17 @@ def detail11 : Option (List (Text × Detail)) → List Xml
   | some [] => []
   | some (kv :: rest) => [.elem (T "detail") [] [] (kvsToXml (kv :: rest))]
 
+/-- the extra children `gen_members_parent` appends for the declared members of the fault class -/
+def membersXml : List (Text × Text) → List Xml
+  | [] => []
+  | (t, x) :: rest => leafElem t x :: membersXml rest
+
 /-- XmlDocument.fault_to_parent -/
 def faultToXml11 (F : Facts09) (f : FaultV) : Xml :=
   .elem tFault11 [] []
     ([leafElem (T "faultcode") (F.env11Prefix ++ ':' :: f.code),
       leafElem (T "faultstring") f.str,
-      leafElem (T "faultactor") f.actor] ++ detail11 f.detail)
+      leafElem (T "faultactor") f.actor] ++ detail11 f.detail ++ membersXml f.members)
 
 def envelope (ns : Text) (body : List Xml) : Xml :=
   .elem (qn ns (T "Envelope")) [] [] [.elem (qn ns (T "Body")) [] [] body]
@@ -466,7 +476,7 @@ def faultToXml12 (F : Facts09) (f : FaultV) : Option Xml :=
       some (.elem tFault12 [] []
         ([.elem tCode [] [] (leafElem tValue v :: subcodeChain rest),
           .elem tReason [] [] [.elem tText [(tLang, f.lang)] f.str []],
-          leafElem tRole f.actor] ++ det))
+          leafElem tRole f.actor] ++ det ++ membersXml f.members))
     | _, _ => none
 
 def valueText (x : Xml) : Text := childText tValue x.kids
@@ -786,6 +796,19 @@ def statusProto (F : Facts09) (app writer : Proto) : Proto :=
     by the per-request protocol -/
 def wsgiSwap (F : Facts09) (app : Proto) (req : Option Proto) (preset : Option Nat) (u : UserCode) : HttpResult :=
   wsgiOn F (statusProto F app (req.getD app)) (req.getD app) preset u
+
+/-- what the processing of an auxiliary method (`process_contexts`, run after `start_response`) ends in -/
+inductive AuxOutcome where
+  | done             -- returned, or its user code raised (caught by the auxiliary context's own funnel and logged)
+  | propagates       -- an exception leaves `process_contexts` (e.g. the auxiliary result cannot be serialised)
+  deriving Repr, DecidableEq
+
+/-- a request whose method has auxiliary methods bound to it -/
+def wsgiAux (F : Facts09) (app : Proto) (req : Option Proto) (preset : Option Nat) (u : UserCode)
+    (aux : List AuxOutcome) : HttpResult :=
+  match wsgiSwap F app req preset u with
+  | .escapes => .escapes
+  | r => if aux.contains .propagates && !F.auxGuarded then .escapes else r
 
 /-! ## the spyne clients (ctx.in_error of the loopback client) -/
 
